@@ -29,6 +29,10 @@ Seg(a, e, o) == [a |-> a, e |-> e, o |-> o]
 VList(xs) == [t |-> "list", v |-> xs, tup |-> FALSE]
 VTuple(xs) == [t |-> "list", v |-> xs, tup |-> TRUE]
 VRange(xs) == [t |-> "list", v |-> xs, tup |-> FALSE, rg |-> TRUE]   \* a range object: iterable, indexable, not a list
+\* dict views (d.items(), d.keys(), d.values()) are iterable like ranges, but neither printable,
+\* comparable nor indexable in the model
+VView(xs) == [t |-> "list", v |-> xs, tup |-> FALSE, rg |-> TRUE, vw |-> TRUE]
+IsView(v) == v.t = "list" /\ "vw" \in DOMAIN v
 IsRange(v) == v.t = "list" /\ "rg" \in DOMAIN v
 VDict(ks, vs) == [t |-> "dict", k |-> ks, v |-> vs]
 VUndef(h) == [t |-> "undef", h |-> h]
@@ -232,7 +236,10 @@ Tri(r) == IF r = "?" THEN Err("EXCLUDED") ELSE Ok(VBool(r = "T"))
 TriNot(r) == IF r = "?" THEN Err("EXCLUDED") ELSE Ok(VBool(r = "F"))
 
 \* (a non-strict undefined is hashable; strict undefined comparisons are handled before)
-Hashable(v) == v.t \in {"int", "bool", "none", "str", "undef"} \/ (v.t = "list" /\ (v.tup \/ IsRange(v)))
+RECURSIVE Hashable(_)
+Hashable(v) == v.t \in {"int", "bool", "none", "str", "undef"}
+               \/ (v.t = "list" /\ IsRange(v) /\ ~IsView(v))
+               \/ (v.t = "list" /\ ~IsRange(v) /\ v.tup /\ \A i \in 1..Len(v.v) : Hashable(v.v[i]))
 
 RECURSIVE HasUndef(_)
 HasUndef(v) == v.t = "undef" \/ (v.t = "list" /\ \E i \in 1..Len(v.v) : HasUndef(v.v[i]))
